@@ -114,15 +114,15 @@ def decode(sx, case):
         return {"model": {}, "spec": {}, "in_domain": False, "skip": True}
     _, base, nodes, ext = sx
     d = RT.decode(base, dict(case, text=text_of(case)))
-    if d.get("skip"):
-        return d
+    if d.get("skip") or d.get("spec_if_accepted"):
+        return {"model": {}, "spec": {}, "in_domain": False, "skip": True}
     d["model"]["text"] = text_of(case)
     keys = (case["env"] or {}).get("keys", "~")
 
     def node(n):
         return [[p if isinstance(p, int) else ["k", p] for p in sx_to_loc(n[0])], SX.canon(SX.sx2j(n[1]))]
     spec_nodes = [[node(n) for n in doc_nodes] for doc_nodes in nodes]
-    d["spec"] = {"recompiles": True, "fixed_point": True, "same_results": True, "nodes": spec_nodes}
+    d["spec"] = {"recompiles": True, "fixed_point": True, "same_results": True, "same_regexes": True, "nodes": spec_nodes}
     d["in_domain"] = ext == "true"
     return d
 
